@@ -79,6 +79,30 @@ def g_ll2d(z):
 def g_l2l(z):
     return cython.cast(cython.long, z)
 
+@cython.locals(x=cython.double)
+def q_cint(x):
+    return cython.cast(cython.const[cython.int], x)
+
+@cython.locals(x=cython.double)
+def q_vclong(x):
+    return cython.cast(cython.volatile[cython.const[cython.long]], x)
+
+@cython.locals(z=cython.long)
+def q_cdbl(z):
+    return cython.cast(cython.const[cython.double], z)
+
+@cython.locals(x=cython.double)
+def q_bint(x):
+    return cython.cast(cython.bint, x)
+
+@cython.locals(x=cython.double)
+def q_cbint(x):
+    return cython.cast(cython.const[cython.bint], x)
+
+@cython.locals(x=cython.double)
+def q_vbint(x):
+    return cython.cast(cython.volatile[cython.bint], x)
+
 @cython.locals(a=cython.int, b=cython.int)
 def sweep8():
     out = []
@@ -180,6 +204,29 @@ CAST_TYPES = ["0:i", "0:f", "1:i", "1:f", "2:i", "2:i#u", "2:i#s", "3:i", "4:i",
               "0:o1", "1:o1", "0:o2", "0:n", "1:n", "2:n"]
 
 
+def c_semantics(ty, vs):
+    """what the C conversion gives for a single in-range argument (independent of the model):
+    integer type <- finite double: truncation; integer type <- integer: identity;
+    floating type <- 64-bit integer: the nearest double"""
+    import math
+    if len(vs) != 1 or ty.split("#")[0].split(":")[1] not in ("i", "f"):
+        return None
+    kind = ty.split("#")[0].split(":")[1]
+    v = vs[0]
+    if v.startswith("Inf"):
+        return None
+    if v[0] == "I" and abs(int(v[1:])) < 2 ** 63:
+        return "V " + (v if kind == "i" else vtok(float(int(v[1:]))))
+    if v[0] == "F":
+        sg, m, e = [int(k) for k in v[1:].split(":")]
+        x = math.ldexp(m, e) * (-1 if sg else 1)
+        if kind == "f":
+            return "V " + v
+        if abs(x) < 2 ** 63:
+            return "V I%d" % math.trunc(x)
+    return None
+
+
 def run_cast_matrix(ctx):
     """Shadow.cast / Shadow.declare (sources of /repo, under CPython) against the extracted model on
     type expressions x argument lists"""
@@ -216,7 +263,11 @@ def run_cast_matrix(ctx):
     for (mode, ty, vs), got, m in zip(spec, r["json"], mres):
         inp = {"helper": mode, "type": ty, "args": vs}
         ctx.case("shadow_" + mode, inp, sig=(mode, ty, tuple(vs)))
-        if canon_tok(got) != canon_tok(m):
+        exp = c_semantics(ty, vs)
+        if exp is not None and canon_tok(got) != canon_tok(exp):
+            # property text: "the shadow ... cast functions equal C semantics on all such inputs"
+            ctx.fail("shadow_cast_not_c_semantics", inp, got, exp)
+        elif canon_tok(got) != canon_tok(m):
             ctx.corr_break("shadowcast:" + mode, inp, got, m)
     ctx.extra.setdefault("input_distribution", {})["cast_matrix"] = {
         "type_expressions": len(CAST_TYPES), "values": len(vals), "calls": len(spec)}
@@ -275,6 +326,11 @@ def run(ctx):
         gcases += [("g_l2d", z), ("g_ll2d", z), ("g_l2l", z)]
     for fn, v in gcases:
         cases.append((fn, [v]))
+    for x in [0.0, -0.0, 0.5, -0.5, 0.25, 1.0, -1.0, 2.0, 1e-300, -7.99, 123456.789]:
+        for fn in ("q_cint", "q_vclong", "q_bint", "q_cbint", "q_vbint"):
+            cases.append((fn, [x]))
+    for z in zs[:12]:
+        cases.append(("q_cdbl", [z]))
     cases.append(("sweep8", []))
     call = [["c38_pure.%s" % fn, args] for fn, args in cases]
     # compiled run
